@@ -48,6 +48,17 @@ def perm_cases():
                     continue
                 for sh in shapes(k):
                     cases.append({"tree": fill(sh, sub), "finals": fin})
+    # amplitudes naming a particle the event type does not have (one foreign leaf among otherwise fitting ones)
+    for fin in PATTERNS:
+        foreign = next((x for x in ("K+", "K-", "pi+", "pi-") if x not in fin), None)
+        if foreign is None:
+            continue
+        for k in range(2, min(len(fin), 3) + 1):
+            for sub in sorted(set(itertools.permutations(fin, k)))[:6]:
+                for pos in range(k):
+                    leaves = list(sub)
+                    leaves[pos] = foreign
+                    cases.append({"tree": fill(shapes(k)[0], leaves), "finals": fin})
     return cases
 
 
